@@ -10,5 +10,7 @@ def check(ctx, rep):
     rxr.rx_10(ctx, rep, ['parso/tree.py', 'parso/python/tree.py', 'parso/python/diff.py'])
     from ..rules import diffr
     diffr.diff_2(ctx, rep)   # the pending line end is decided on the node that really is the last one copied
+    from ..rules import shape as _shape
+    _shape.wrap_1(ctx, rep)      # decorated -> async_funcdef -> funcdef: unwrap chains are closed under the grammar
     rep.note('Not decided: equivalence of the incremental and the fresh tree over edit histories (difflib opcodes, '
              'line arithmetic, copy heuristics are value driven).')
